@@ -310,9 +310,14 @@ def _replay_all(cases, procs):
     chunks = [slim[i:i + size] for i in range(0, len(slim), size)]
     traces = [t for part in core.pool_map(_replay_chunk, chunks, procs=procs,
                                           chunksize=1) for t in part]
-    for trace in traces:
+    # a stalled handshake (overloaded machine) is retried once, alone
+    for i, trace in enumerate(traces):
         if "stall" in trace:
-            raise core.MachineryError(f"replay {trace['id']}: {trace['stall']}")
+            again = _replay_chunk([c for c in slim if c["id"] == trace["id"]])[0]
+            if "stall" in again:
+                raise core.MachineryError(f"replay {trace['id']}: {trace['stall']} / "
+                                          f"retry: {again['stall']}")
+            traces[i] = again
     return traces
 
 
